@@ -58,6 +58,7 @@ type Universe struct {
 	lits     map[string]string // string literal -> constant name
 	litOrder []string
 	extraSorts map[string]bool
+	fnConsts   map[string]bool
 }
 
 func newUniverse(P *Program) *Universe {
@@ -528,8 +529,28 @@ const strExtra = `; sequence-theory facts about concatenation and slices (true o
 (assert (forall ((a Str)) (! (= (Str.cat Str.empty a) a) :pattern ((Str.cat Str.empty a)))))
 `
 
+func (U *Universe) fnConst(key string) string {
+	c := "fn." + sanitize(key)
+	if U.fnConsts == nil {
+		U.fnConsts = map[string]bool{}
+	}
+	U.fnConsts[c] = true
+	return c
+}
+
 func (U *Universe) litDecls() string {
 	var b strings.Builder
+	var fns []string
+	for c := range U.fnConsts {
+		fns = append(fns, c)
+	}
+	sort.Strings(fns)
+	for _, c := range fns {
+		fmt.Fprintf(&b, "(declare-const %s Fn)\n", c)
+	}
+	if len(fns) > 1 {
+		fmt.Fprintf(&b, "(assert (distinct Fn.nil %s))\n", strings.Join(fns, " "))
+	}
 	for _, s := range U.litOrder {
 		c := U.lits[s]
 		fmt.Fprintf(&b, "(declare-const %s Str)\n(assert (= (Str.len %s) %d))\n", c, c, len(s))
